@@ -5,7 +5,9 @@ go 1.23
 require (
 	github.com/BurntSushi/toml v0.0.0-00010101000000-000000000000
 	github.com/anishathalye/porcupine v1.3.0
+	github.com/golang/snappy v0.0.1
 	github.com/grafana/carbon-relay-ng v0.0.0
+	github.com/grafana/metrictank v1.0.1-0.20210114150051-52835b9a8775
 	github.com/kisielk/og-rek v0.0.0-20170405223746-ec792bc6e6aa
 	github.com/metrics20/go-metrics20 v0.0.0-20180821133656-717ed3a27bf9
 	github.com/sirupsen/logrus v1.1.2-0.20181020050904-08e90462da34
@@ -29,10 +31,8 @@ require (
 	github.com/eapache/queue v1.1.0 // indirect
 	github.com/go-ini/ini v1.38.3 // indirect
 	github.com/golang/protobuf v0.0.0-20171113180720-1e59b77b52bf // indirect
-	github.com/golang/snappy v0.0.1 // indirect
 	github.com/googleapis/gax-go v2.0.0+incompatible // indirect
 	github.com/grafana/configparser v0.0.0-20210707122942-2593eb86a3ee // indirect
-	github.com/grafana/metrictank v1.0.1-0.20210114150051-52835b9a8775 // indirect
 	github.com/hashicorp/go-uuid v1.0.1 // indirect
 	github.com/jcmturner/gofork v0.0.0-20190328161633-dc7c13fece03 // indirect
 	github.com/jmespath/go-jmespath v0.0.0-20160202185014-0b12d6b521d8 // indirect
